@@ -237,6 +237,12 @@ fn gen_case(src: &mut Src, force_h: usize, huge_ok: bool) -> Case {
     let mut contents_decoded = b"BT /F1 12 Tf 72 700 Td (".to_vec();
     contents_decoded.extend(payload(seed32, contents_nr.unwrap_or(0), 0, &mut counter, 20, true));
     contents_decoded.extend_from_slice(b") Tj ET\n");
+    // R5/R6 passwords are UTF-8 cut to 127 bytes (7.6.4.3.3): boundary lengths, the part beyond 127 must not matter
+    let long = alt_if(src, r >= 5, 10, &["pw-short", "pw-127-bytes", "pw-128-bytes", "pw-200-bytes"]);
+    let stretch = |pw: Vec<u8>, n: usize, salt: u8| -> Vec<u8> { let mut v = pw; let mut k = 0u8; while v.len() < n { v.push(b'a' + (k.wrapping_mul(7).wrapping_add(salt)) % 26); k = k.wrapping_add(1); } v };
+    let same_pw = opw == upw;
+    let (upw, opw) = match long { 1 => (stretch(upw, 127, 1), stretch(opw, 127, 2)), 2 => (stretch(upw, 128, 1), stretch(opw, 128, 2)), 3 => (stretch(upw, 200, 1), stretch(opw, 200, 2)), _ => (upw, opw) };
+    let opw = if same_pw { upw.clone() } else { opw };
     Case {
         h, key_bytes, v, upw, opw, p, id0, id1, encrypt_direct, encmeta: em != 2, encmeta_explicit: em != 0,
         stm_identity: cfk == 1, str_identity: cfk == 2, cf_len, enc_len, cf_type, near_miss, xref_stream,
